@@ -1094,7 +1094,6 @@ func storedTypes(p *Prog, u *Universe, key string, seen map[string]bool) (map[st
 	return out, true
 }
 
-
 func mentionsAST(t types.Type) bool {
 	for depth := 0; depth < 4; depth++ {
 		if nt, ok := t.(*types.Named); ok {
